@@ -6,7 +6,7 @@ from .ordering import *
 
 
 def parse_args(args_node):
-    return Ordering([id(arg) for arg in args_node.args])
+    return Ordering([arg.arg for arg in args_node.args])
 
 
 def parse_name(ordering, node):
